@@ -520,6 +520,17 @@ func c10Body(t *zsim.Tape, w *zsim.World, d *zsim.Disk, sc *c10Scenario, out *hl
 		`{"SourceCode":"（显示：“hi”）\n输出1 + 1","VarInput":""}`,
 		`{"SourceCode":"输入甲\n输出甲","VarInput":"甲 = 5"}`,
 		`{"SourceCode":"输出1","VarInput":"甲 = 未定义名"}`,
+		// input-variable texts arrive with the request: names that are not defined, 其 / 此 outside
+		// any object, calls of unknown functions, several lines
+		`{"SourceCode":"输入甲\n输出甲","VarInput":"甲 = 乙"}`,
+		`{"SourceCode":"输入甲\n输出甲","VarInput":"甲 = 乙 + 1"}`,
+		`{"SourceCode":"输入甲\n输出甲","VarInput":"甲 = 其 乙"}`,
+		`{"SourceCode":"输入甲\n输出甲","VarInput":"甲 = 此"}`,
+		`{"SourceCode":"输入甲\n输出甲","VarInput":"甲 = （无此函数：1）"}`,
+		`{"SourceCode":"输入甲、乙\n输出甲 + 乙","VarInput":"甲 = 1\n乙 = 甲"}`,
+		`{"SourceCode":"输入甲\n输出甲","VarInput":"甲 = 【乙，“k” = 丙】"}`,
+		`{"SourceCode":"输入甲\n输出甲","VarInput":"甲 成为 无此类：1"}`,
+		`{"SourceCode":"输入甲\n输出甲","VarInput":"甲 = 1 / 0"}`,
 		`{"a":1,"b":[1,2]}`,
 		`[1,2,3]`,
 		`not json`,
